@@ -207,7 +207,7 @@ def cases(draw, env_tz=None):
     if draw(st.integers(0, 2)) == 0:
         tt = _transitions(A or env_tz or "UTC") + (_transitions(B) if B else [])
         if tt:
-            t = tt[draw(st.integers(0, len(tt) - 1))]
+            t = draw(st.sampled_from(tt))
             delta = draw(st.sampled_from([-36, -25, -13, -3, -2, 2, 3, 13, 25, 36]))
             t2 = t + dt.timedelta(hours=delta, minutes=draw(st.sampled_from([0, 29, 30, 59])))
             if 1950 <= t2.year <= 2037:
